@@ -211,12 +211,12 @@ def apply_op(e, prog, preds, cell, op, state):
         S.call(e, prog, 'Sentence', 'reset_tags', [Ref(cell), usize(o[1])])
     elif o[0] == 'filter':
         if o[1] == 'wsconst':
-            filt = P.mk_struct(prog, 'KyteaWsConstFilter', char_type=Int(P.TYPE_CODE['R'], 8)); fty = 'KyteaWsConstFilter'
+            filt = P.wsconst_filter(e, prog, 'R'); fty = 'KyteaWsConstFilter'
         else:
             from models.m_map import new_map, map_insert
             m = new_map('HashMap')
             map_insert(e, m, mk_str('a'), Seq([some(mk_str('T1')), none(), some(mk_str('T3'))]))
-            filt = P.mk_struct(prog, 'PatternMatchTagger', rules=m); fty = 'PatternMatchTagger'
+            filt = P.pattern_tagger(e, prog, m); fty = 'PatternMatchTagger'
         e.run(hlib.fn(prog, fty, 'filter', 'SentenceFilter'), [Ref(Cell(filt)), Ref(cell)])
 
 
